@@ -3,7 +3,7 @@
 generated ones: the statement is printed by Coq from the proved lemma and closed with `exact @lemma`. Idempotent."""
 import subprocess, re, os, sys
 COQ = os.path.join(os.path.dirname(os.path.dirname(os.path.abspath(__file__))), "coq")
-EXTRA = {"C03": ["Ctpg.Model.Dfa", "Ctpg.Model.Containers", "Ctpg.Proofs.LRGenWordsRefine", "Ctpg.Proofs.CharsetWordsRefine"], "C04": ["Ctpg.Model.Driver", "Ctpg.Proofs.UtilsDriverLink"], "C01": ["Ctpg.Model.LRGen", "Ctpg.Model.LRGenWords", "Ctpg.Proofs.LRGenWordsRefine", "Ctpg.Proofs.GenWf", "Ctpg.Proofs.GenClosure", "Ctpg.Proofs.KernelWordsRefine", "Ctpg.Proofs.ClosureWordsRefine"]}
+EXTRA = {"C03": ["Ctpg.Model.Dfa", "Ctpg.Model.Containers", "Ctpg.Proofs.LRGenWordsRefine", "Ctpg.Proofs.CharsetWordsRefine", "Ctpg.Proofs.KernelWordsRefine", "Ctpg.Proofs.MergedFromLink"], "C04": ["Ctpg.Model.Driver", "Ctpg.Proofs.UtilsDriverLink"], "C01": ["Ctpg.Model.LRGen", "Ctpg.Model.LRGenWords", "Ctpg.Proofs.LRGenWordsRefine", "Ctpg.Proofs.GenWf", "Ctpg.Proofs.GenClosure", "Ctpg.Proofs.KernelWordsRefine", "Ctpg.Proofs.ClosureWordsRefine"]}
 BASE = ["Ctpg.Base.Prelude", "Ctpg.Model.Grammar", "Ctpg.Model.Containers", "Ctpg.Model.Utils", "Ctpg.Proofs.ContainersBits", "Ctpg.Proofs.ContainersVec", "Ctpg.Proofs.ContainersSort", "Ctpg.Proofs.UtilsCorrect"]
 def coq_type(imports, lemma):
     src = "".join(f"Require Import {m}.\n" for m in imports) + "Set Printing Width 100000.\nSet Printing Depth 100000.\n" + f"Check @{lemma}.\n"
@@ -38,6 +38,7 @@ ADD = {
          ("C03_ranges_on_words_are_the_models", "w_cs_add_range_rel", "add_range (the loop of set(i) for i = c1..c2) on words is the model's cs_add_range, also for an empty range c1 > c2"),
          ("C03_set_membership_on_words_is_the_models", "w_cs_test_rel", "test(c) on words is the model's membership"),
          ("C03_inverted_set_example_on_words", "ex_neg_abc_tests", "[^a-c] computed on words: 0xC8 and 0xFF are members, index 256 throws"),
+         ("C03_merged_from_on_words_is_the_models_list", "merged_fold_sim", "LINK (builder): `if (merged_from.test(from)) return; merged_from.set(from);` on the words of the state's bitset stays related to the model's `if mem_nat from l then l else from :: l` over any sequence of merges"),
          ("C03_whole_set_flip_is_exact_for_256_bits", "cb_run_clean_multiple_of_64", "256 is a multiple of 64: no padding bits exist, flip() and set() are exact"),
          ("C03_hex_escapes_decode_to_their_value", "hex_digits_to_char_spec", "regex::hex_digits_to_char on two hex digits is 16 * v1 + v2 (as a byte, also for values >= 0x80 where char is negative)"),
          ("C03_hex_digit_class", "is_hex_digit_spec", "utils::is_hex_digit on signed chars = the three ASCII ranges"),
